@@ -25,6 +25,14 @@ def crash_signature(text):
     return "%s in %s" % (kind, function)
 
 
+def crash_violation(prop, result):
+    """The violation record for a run of the system under simulation that raised."""
+    text = result.error or ""
+    return {"property": prop, "oracle": "crash", "step": result.events,
+            "detail": dict(classify_crash(text, result.notes), crash_signature=crash_signature(text),
+                           traceback=text[-2500:])}
+
+
 def classify_crash(text, notes=None):
     """Marks the one crash that is a recorded finding: a candidate event time a rounding error before the current
     time (a potential returned a displacement of about -1e-17), refused by the scheduler.  The shadow scheduler must
